@@ -48,15 +48,17 @@ struct EqWorld
     Slot<Model> model;
     std::vector<Slot<Component>> comp;
     std::vector<Slot<Variable>> var;
+    VariablePtr foreign; // never connected, never added to a component
     EState ref;
     bool dead = false;
     std::string deadWhy;
 
-    enum Kind { ADD2, ADD4, REMOVE, REMOVE_ALL, SET_MAP, SET_CONN, RM_MAP, RM_CONN, RM_VAR, ADD_VAR, DROP_V, DROP_C, DROP_M, KINDS };
+    enum Kind { ADD2, ADD4, REMOVE, REMOVE_ALL, SET_MAP, SET_CONN, RM_MAP, RM_CONN, RM_VAR, ADD_VAR, DROP_V, DROP_C, DROP_M, BAD_ADD, BAD_REMOVE, BAD_IDS, KINDS };
     static const char *kindName(int k)
     {
         static const char *K[] = {"addEquivalence(v1,v2)", "addEquivalence(v1,v2,mappingId,connectionId)", "removeEquivalence", "removeAllEquivalences", "setEquivalenceMappingId", "setEquivalenceConnectionId",
-                                  "removeEquivalenceMappingId", "removeEquivalenceConnectionId", "removeVariable(ptr)", "addVariable", "dropVariableRef", "dropComponentRef", "dropModelRef"};
+                                  "removeEquivalenceMappingId", "removeEquivalenceConnectionId", "removeVariable(ptr)", "addVariable", "dropVariableRef", "dropComponentRef", "dropModelRef",
+                                  "addEquivalence(bad-argument)", "removeEquivalence(bad-argument)", "equivalence-id-setters(bad-argument)"};
         return K[k];
     }
     struct Op { Kind k; int a; int b; };
@@ -71,6 +73,12 @@ struct EqWorld
             if (MODE == EQ_IDS) {
                 for (int a = 0; a < NV; ++a) for (int b = 0; b < NV; ++b) if (a != b) o.push_back({ADD4, a, b});
                 for (int k : {SET_MAP, SET_CONN, RM_MAP, RM_CONN}) for (int a = 0; a < NV; ++a) for (int b = a + 1; b < NV; ++b) o.push_back({Kind(k), a, b});
+            }
+            // mutators with a null / never-connected partner: must be refused and change nothing (b: 0 null, 1 foreign)
+            for (int a = 0; a < NV; ++a) {
+                o.push_back({BAD_ADD, a, 0});
+                for (int b = 0; b < 2; ++b) o.push_back({BAD_REMOVE, a, b});
+                if (MODE == EQ_IDS) for (int b = 0; b < 2; ++b) o.push_back({BAD_IDS, a, b});
             }
             if (MODE == EQ_LIFE) {
                 for (int a = 0; a < NV; ++a) { o.push_back({RM_VAR, a, 0}); o.push_back({ADD_VAR, a, 0}); o.push_back({DROP_V, a, 0}); }
@@ -99,6 +107,9 @@ struct EqWorld
         case DROP_V: return "drop harness reference to " + V(o.a);
         case DROP_C: return "drop harness reference to c" + std::to_string(o.a);
         case DROP_M: return "drop harness reference to the model";
+        case BAD_ADD: return "Variable::addEquivalence(" + V(o.a) + ", nullptr) and (nullptr, " + V(o.a) + ")";
+        case BAD_REMOVE: return std::string("Variable::removeEquivalence(") + V(o.a) + ", " + (o.b ? "foreign" : "nullptr") + ") and reversed";
+        case BAD_IDS: return std::string("Variable::set/removeEquivalenceMappingId/ConnectionId(") + V(o.a) + ", " + (o.b ? "foreign" : "nullptr") + ") and reversed";
         default: return "?";
         }
     }
@@ -110,6 +121,7 @@ struct EqWorld
         for (int c = 0; c < NC; ++c) { auto k = Component::create("c" + std::to_string(c)); model.held->addComponent(k); comp[c].init(k); }
         static const char *N[] = {"a", "b", "c", "d"};
         for (int v = 0; v < NV; ++v) { auto x = Variable::create(N[v]); comp[home(v)].held->addVariable(x); var[v].init(x); }
+        foreign = Variable::create("zz");
         ref.adj.assign(NV, {});
         ref.inComp.assign(NV, 1);
         ref.heldV.assign(NV, 1);
@@ -166,6 +178,56 @@ struct EqWorld
         }
         return s;
     }
+    static bool reachable(const EState &s, int from, int to)
+    {
+        std::vector<char> seen(s.adj.size(), 0);
+        std::vector<int> st = {from};
+        seen[from] = 1;
+        while (!st.empty()) {
+            int x = st.back();
+            st.pop_back();
+            for (int y : s.adj[x]) if (y >= 0 && !seen[y]) { if (y == to) return true; seen[y] = 1; st.push_back(y); }
+        }
+        return false;
+    }
+    // number of expired weak entries each live variable still carries (hidden; part of the key where objects can die)
+    std::string expiredDump() const
+    {
+        std::string s;
+        for (int v = 0; v < NV; ++v) {
+            auto p = var[v].peek();
+            if (!p) continue;
+            size_t raw = p->pFunc()->mEquivalentVariables.size(), live = p->equivalentVariableCount();
+            if (raw != live) s += " v" + std::to_string(v) + "+" + std::to_string(raw - live) + "expired";
+        }
+        return s;
+    }
+    // Every query of the equivalence API on every live variable, argument in {null, never-connected, every live variable}:
+    // judged against the observed graph `s` (which the step oracle compares with the reference model).
+    void querySweep(const EState &s, std::vector<Viol> &out) const
+    {
+        auto B = [](bool b) { return std::string(b ? "true" : "false"); };
+        for (int v = 0; v < NV; ++v) {
+            auto p = var[v].peek();
+            if (!p) continue;
+            bool hasExpired = p->pFunc()->mEquivalentVariables.size() != p->equivalentVariableCount();
+            std::string ctx = hasExpired ? ":receiver-lists-a-destroyed-variable" : "";
+            struct Arg { const char *cls; VariablePtr ptr; int idx; };
+            std::vector<Arg> args = {{"null", nullptr, -1}, {"never-connected", foreign, -3}};
+            for (int k = 0; k < NV; ++k) if (k != v) if (auto q = var[k].peek()) args.push_back({"universe-variable", q, k});
+            for (auto &a : args) {
+                bool expD = a.idx >= 0 && has(s.adj[v], a.idx), expI = a.idx >= 0 && reachable(s, v, a.idx);
+                bool gotD = p->hasEquivalentVariable(a.ptr, false), gotI = p->hasEquivalentVariable(a.ptr, true);
+                if (gotD != expD) out.push_back({std::string("equivalences:query:hasEquivalentVariable(direct):") + a.cls + ":answered-" + B(gotD) + ctx, {{"state", s.str()}, {"receiver", v}, {"argument", a.idx}}});
+                if (gotI != expI) out.push_back({std::string("equivalences:query:hasEquivalentVariable(indirect):") + a.cls + ":answered-" + B(gotI) + ctx, {{"state", s.str()}, {"receiver", v}, {"argument", a.idx}}});
+                if (a.idx < 0) { // no equivalence exists with null / a never-connected variable: every id getter answers ""
+                    std::string ids = Variable::equivalenceMappingId(p, a.ptr) + Variable::equivalenceMappingId(a.ptr, p) + Variable::equivalenceConnectionId(p, a.ptr) + Variable::equivalenceConnectionId(a.ptr, p);
+                    if (!ids.empty()) out.push_back({std::string("equivalences:query:equivalenceMappingId/ConnectionId:") + a.cls + ":answered-non-empty" + ctx, {{"state", s.str()}, {"receiver", v}, {"ids", ids}}});
+                }
+            }
+            if (p->equivalentVariable(SIZE_MAX)) out.push_back({"equivalences:query:equivalentVariable(SIZE_MAX)-not-null" + ctx, {{"state", s.str()}, {"receiver", v}}});
+        }
+    }
     void checkInvariants(const EState &s, std::vector<Viol> &out) const
     {
         for (int a = 0; a < NV; ++a) {
@@ -194,7 +256,7 @@ struct EqWorld
         const EState &s = ref;
         switch (o.k) {
         case ADD2: case ADD4: case REMOVE: case SET_MAP: case SET_CONN: case RM_MAP: case RM_CONN: return s.heldV[o.a] && s.heldV[o.b];
-        case REMOVE_ALL: case DROP_V: return s.heldV[o.a];
+        case REMOVE_ALL: case DROP_V: case BAD_ADD: case BAD_REMOVE: case BAD_IDS: return s.heldV[o.a];
         case RM_VAR: return s.heldV[o.a] && s.heldC[home(o.a)] && s.inComp[o.a];
         case ADD_VAR: return s.heldV[o.a] && s.heldC[home(o.a)] && !s.inComp[o.a];
         case DROP_C: return s.heldC[o.a];
@@ -246,6 +308,8 @@ struct EqWorld
         case DROP_V: { EState t = s; t.heldV[o.a] = 0; settle(t); al.push_back({t, ""}); situation = t.aliveV[o.a] ? "still-owned" : "destroyed"; break; }
         case DROP_C: { EState t = s; t.heldC[o.a] = 0; settle(t); al.push_back({t, ""}); situation = t.aliveC[o.a] ? "still-owned" : "destroyed"; break; }
         case DROP_M: { EState t = s; t.heldM = 0; settle(t); al.push_back({t, ""}); break; }
+        case BAD_ADD: case BAD_REMOVE: al.push_back({s, "false,false"}); situation = o.b ? "foreign" : "null"; break;
+        case BAD_IDS: al.push_back({s, ""}); situation = o.b ? "foreign" : "null"; break;
         default: break;
         }
         return al;
@@ -259,7 +323,8 @@ struct EqWorld
         auto allowed = refStep(o, situation, free);
         auto B = [](bool b) { return std::string(b ? "true" : "false"); };
         auto &a = var[o.k == DROP_C || o.k == DROP_M ? 0 : o.a].held;
-        auto &b = var[o.k == DROP_C || o.k == DROP_M ? 0 : o.b].held;
+        auto &b = var[o.k == DROP_C || o.k == DROP_M || o.k >= BAD_ADD ? 0 : o.b].held;
+        VariablePtr bad = (o.k >= BAD_ADD && o.b) ? foreign : nullptr;
         switch (o.k) {
         case ADD2: ret = B(Variable::addEquivalence(a, b)); break;
         case ADD4: ret = B(Variable::addEquivalence(a, b, "m1", "k1")); break;
@@ -274,10 +339,22 @@ struct EqWorld
         case DROP_V: var[o.a].held.reset(); break;
         case DROP_C: comp[o.a].held.reset(); break;
         case DROP_M: model.held.reset(); break;
+        case BAD_ADD: ret = B(Variable::addEquivalence(a, nullptr)) + "," + B(Variable::addEquivalence(nullptr, a)); break;
+        case BAD_REMOVE: ret = B(Variable::removeEquivalence(a, bad)) + "," + B(Variable::removeEquivalence(bad, a)); break;
+        case BAD_IDS:
+            Variable::setEquivalenceMappingId(a, bad, "m1"); Variable::setEquivalenceMappingId(bad, a, "m1");
+            Variable::setEquivalenceConnectionId(a, bad, "k1"); Variable::setEquivalenceConnectionId(bad, a, "k1");
+            Variable::removeEquivalenceMappingId(a, bad); Variable::removeEquivalenceMappingId(bad, a);
+            Variable::removeEquivalenceConnectionId(a, bad); Variable::removeEquivalenceConnectionId(bad, a);
+            break;
         default: break;
         }
         std::vector<Viol> iv;
+        // queries FIRST (they are pure; observe() is pure too, but keep the order fixed): every query of the equivalence API
+        // with null / never-connected / every live variable as argument, in the state the operation left behind
+        // (including expired weak entries right after a partner was destroyed)
         EState obs = observe(&iv);
+        querySweep(obs, iv);
         checkInvariants(obs, iv);
         if (!iv.empty()) {
             std::set<std::string> seen;
@@ -294,12 +371,13 @@ struct EqWorld
         dead = true;
         deadWhy = "VIOLATED";
     }
-    std::string canon() { return dead ? deadWhy : observe().str() + (MODE == EQ_IDS ? " ids:" + idDump() : std::string()); }
+    std::string canon() { return dead ? deadWhy : observe().str() + (MODE == EQ_IDS ? " ids:" + idDump() : std::string()) + (MODE == EQ_LIFE ? expiredDump() : std::string()); }
     void invariant(std::vector<Viol> &out)
     {
         if (dead) return;
         std::vector<Viol> iv;
         EState s = observe(&iv);
+        querySweep(s, iv);
         checkInvariants(s, iv);
         for (auto &v : iv) out.push_back(v);
     }
